@@ -17,7 +17,9 @@ inductive FieldClass
   | sharedCache    -- same memory, written lazily by either side (rlwe.Evaluator.automorphismIndex BEFORE
                    -- fix C10-4; no field of the current table has this class)
   | sharedScratch  -- same memory used as scratch / PRNG state: documented "cannot be used concurrently"
-  | owned          -- freshly allocated, same content (scratch buffers, deep-copied data)
+  | owned          -- freshly allocated, same content (scratch buffers, deep-copied data); "content" includes
+                   -- the precision of every big.Float of an arbitrary-precision buffer (ckks.Encoder with
+                   -- precision > 53: rows `ckks.Encoder.ShallowCopy[prec…]`)
   | rng            -- freshly allocated, fresh randomness (new PRNG per shallow copy)
   | replaced       -- freshly supplied by the caller or recomputed (new key, new index map)
   | retyped        -- interface field now holding a value of another dynamic type (WithKey sk↔pk)
@@ -76,6 +78,10 @@ def table : List (String × Row) := [
   ("ckks.Evaluator.ShallowCopy", [("Encoder", .nested), ("Evaluator", .nested), ("evaluatorBuffers", .owned)]),
   ("ckks.Evaluator.WithKey", [("Encoder", .sharedScratch), ("Evaluator", .nested), ("evaluatorBuffers", .sharedScratch)]),
   ("ckks.Encoder.ShallowCopy", [("bigintCoeffs", .owned), ("buff", .owned), ("buffCmplx", .replaced), ("m", .config), ("parameters", .sharedRO), ("prec", .config), ("qHalf", .owned), ("roots", .sharedRO), ("rotGroup", .sharedRO)]),
+  ("ckks.Encoder.ShallowCopy[prec64]", [("bigintCoeffs", .owned), ("buff", .owned), ("buffCmplx", .owned), ("m", .config), ("parameters", .sharedRO), ("prec", .config), ("qHalf", .owned), ("roots", .sharedRO), ("rotGroup", .sharedRO)]),
+  ("ckks.Encoder.ShallowCopy[prec128]", [("bigintCoeffs", .owned), ("buff", .owned), ("buffCmplx", .owned), ("m", .config), ("parameters", .sharedRO), ("prec", .config), ("qHalf", .owned), ("roots", .sharedRO), ("rotGroup", .sharedRO)]),
+  ("ckks.Encoder.ShallowCopy[prec256]", [("bigintCoeffs", .owned), ("buff", .owned), ("buffCmplx", .owned), ("m", .config), ("parameters", .sharedRO), ("prec", .config), ("qHalf", .owned), ("roots", .sharedRO), ("rotGroup", .sharedRO)]),
+  ("ckks.Encoder.ShallowCopy[LogDefaultScale60]", [("bigintCoeffs", .owned), ("buff", .owned), ("buffCmplx", .owned), ("m", .config), ("parameters", .sharedRO), ("prec", .config), ("qHalf", .owned), ("roots", .sharedRO), ("rotGroup", .sharedRO)]),
   ("rgsw.Evaluator.ShallowCopy", [("Evaluator", .nested)]),
   ("rgsw.Evaluator.WithKey", [("Evaluator", .nested)]),
   ("rgsw.Encryptor.ShallowCopy", [("Encryptor", .nested), ("buffQP", .owned)]),
